@@ -18,7 +18,8 @@ pub struct Sbx {
 
 impl Sbx {
     pub fn new(family: &str, n: usize) -> Self {
-        let root = PathBuf::from(format!("/verif/build/sbx/{family}-{}-{n}", std::process::id()));
+        let base = std::env::var("VERIF_SBX").unwrap_or_else(|_| "/verif/build/sbx".into());
+        let root = PathBuf::from(format!("{base}/{family}-{}-{n}", std::process::id()));
         let _ = std::fs::remove_dir_all(&root);
         std::fs::create_dir_all(root.join("tmp")).unwrap();
         Sbx { root }
